@@ -52,6 +52,9 @@ def hset (h : HMap) (k : Str) (vv : List Str) : HMap :=
 /-- `h[k] = append(h[k], v)` -/
 def hadd (h : HMap) (k v : Str) : HMap := hset h k (hget h k ++ [v])
 def hdel (h : HMap) (k : Str) : HMap := h.filter fun e => !(e.1 == k)
+/-- `h[k][0] = v` when the key is present (in place) -/
+def hsetFirst (h : HMap) (k v : Str) : HMap :=
+  h.map fun e => if e.1 == k then (e.1, match e.2 with | [] => [] | _ :: r => v :: r) else e
 
 /-- byte-wise `<` of Go strings -/
 def strLt : Str → Str → Bool
@@ -279,12 +282,14 @@ def rwFlush (env : Env) (s : St) : St :=
 
 inductive Act
   | add (k v : Str)        -- w.Header()[k] = append(w.Header()[k], v)
+  | setFirst (k v : Str)   -- w.Header()[k][0] = v  (in place; the WriteHeader snapshot owns copies of the slices)
   | status (code : Nat)    -- w.WriteHeader(code)
   | write (p : List Nat)   -- w.Write(p)
   | flush                  -- w.Flush()
 
 def step (env : Env) (s : St) : Act → St
   | .add k v => { s with hh := hadd s.hh k v }
+  | .setFirst k v => { s with hh := hsetFirst s.hh k v }
   | .status c => writeHeader s c
   | .write p => rwWrite env s p
   | .flush => rwFlush env s
@@ -335,11 +340,13 @@ def statusOf : List Act → Nat
   | .write _ :: _ => 200
   | .flush :: _ => 200
   | .add _ _ :: r => statusOf r
+  | .setFirst _ _ :: r => statusOf r
 
 /-- the handler's header map at the moment the header is fixed: the additions before the first
     WriteHeader / Write / Flush, applied to `m` -/
 def hdrAdds (m : HMap) : List Act → HMap
   | .add k v :: r => hdrAdds (hadd m k v) r
+  | .setFirst k v :: r => hdrAdds (hsetFirst m k v) r
   | _ => m
 
 /-- the snapshot `writeHeader` takes -/
